@@ -343,6 +343,9 @@ class UserActions(object):
   def ApplyUndoActions(self, undo_actions):
     for undo_action in reversed(undo_actions):
       self._do_doc_action(actions.action_from_repr(undo_action))
+    # The actions carry the values of trigger-formula columns too; restoring the cells they depend
+    # on (possibly before restoring which cells those are) must not run them.
+    self._engine.discard_pending_trigger_recalcs()
 
   @useraction
   def Calculate(self):
